@@ -44,6 +44,8 @@ Replace == /\ tid <= Len(Traces) /\ phase = "back"
                             \o (IF d1 # {} THEN <<V("C16.replace_other_fields", d1, "changed")>> ELSE <<>>)
                             \o (IF d2 # {} THEN <<V("C16.replace_alters_original", d2, "changed")>> ELSE <<>>)
                             \o (IF R.same_object = 1 THEN <<V("C16.replace_is_copy", "a new object", "the same object")>> ELSE <<>>)
+                            \o (LET d3 == Diff(R.edit_before, R.edit_after, DOMAIN R.edit_before) IN
+                                IF d3 # {} THEN <<V("C16.replace_shares_state", d3, "editing the copy changed the original")>> ELSE <<>>)
            /\ phase' = "replaced" /\ UNCHANGED tid
 (* the changed copy converts to a native object that carries the change, and the original converts once more to what it was:    *)
 (* a conversion result remembered across replace() (or across calls) would show here                                            *)
